@@ -2,9 +2,12 @@
   C12 — canonical encodings are bijective.
   PROPERTY THEOREMS ONLY (helpers are in Lemmas/Codec/*.lean).
   Model: Model/Codec/Cbor.lean (ABI canonical CBOR, crates/echo-wasm-abi/src/canonical.rs, after
-  fix-c12-abi-cbor-floats.patch); extracted table: Generated/CborHead.lean.
+  fix-c12-abi-cbor-floats, fix-c13-abi-cbor-bounds and fix-c12-abi-encoder-nesting: encoder and
+  decoder both carry the container depth); extracted table: Generated/CborHead.lean (head widths,
+  marker bytes, `maxNesting` + presence of the nesting check in all four container arms).
 -/
 import EchoVerif.Lemmas.Codec.CborCanon
+import EchoVerif.Lemmas.Codec.CborDepth
 import EchoVerif.Lemmas.Codec.CborRound
 import EchoVerif.Lemmas.Codec.CborFuel
 import EchoVerif.Lemmas.Codec.Records
@@ -44,14 +47,15 @@ example : decKind 25 = .width 2 ∧ decOverwide 25 (beVal [0x00, 0xff]) = true :
 /-- **abi_accepted_canonical.** Every byte string `decode_value` accepts is exactly the encoding
     `encode_value` produces for the decoded value: ints/lengths minimal, floats in their shortest
     exact width (and never integral), NaN only as f9 7e 00, map keys strictly ascending by encoded
-    bytes, definite lengths, no tags, no trailing bytes — all at once, for all inputs. -/
+    bytes, definite lengths, no tags, no trailing bytes, nesting within the limit the encoder
+    enforces as well — all at once, for all inputs. -/
 theorem abi_accepted_canonical (b : Bytes) (v : Val) (h : decode b = .ok v) : encode v = .ok b := by
   unfold decode at h
   split at h
   · cases h
   · rename_i v' hd
     injection h with h; subst h
-    obtain ⟨e, he, hb⟩ := dec_canon _ _ _ _ hd
+    obtain ⟨e, he, hb⟩ := dec_canon _ _ _ _ _ hd
     rw [hb]; simpa [encode] using he
   · cases h
 
@@ -59,10 +63,11 @@ theorem abi_accepted_canonical (b : Bytes) (v : Val) (h : decode b = .ok v) : en
     sizes below 2^64) that `encode_value` accepts, `decode_value` of the produced bytes returns the
     value's normal form `norm v`: integral floats in `[-2^63, 2^64)` read back as integers (−0.0 as
     0), every NaN as the canonical NaN, map entries in the order of their encoded keys — applied
-    recursively; everything else is returned unchanged. -/
+    recursively; everything else is returned unchanged.  No hypothesis on the nesting of `v`: the
+    encoder refuses (`NestingLimitExceeded`) exactly what the decoder would not read back. -/
 theorem abi_roundtrip (v : Val) (hwf : WF v) (e : Bytes) (he : encode v = .ok e) :
     decode e = .ok (norm v) := by
-  have h := rt_all v hwf e he (e.length + 1) [] (by omega)
+  have h := rt_all v hwf 0 e he (e.length + 1) [] (by omega)
   rw [List.append_nil] at h
   unfold decode
   rw [h]
@@ -99,13 +104,56 @@ theorem abi_noncanonical_rejected (b : Bytes) (h : ∀ v, encode v ≠ .ok b) : 
   | error e => exact ⟨e, rfl⟩
   | ok v => exact absurd (abi_accepted_canonical b v hd) (h v)
 
+/-- **abi_nesting_symmetric.** Encoder and decoder enforce the SAME nesting limit (the extracted
+    `MAX_DECODE_NESTING_DEPTH`): whatever `encode_value` accepts has at most `maxNesting` nested
+    containers, and so has whatever `decode_value` returns.  Together with `abi_roundtrip` /
+    `abi_accepted_canonical`: the limit cuts the value space and the byte space at the same place,
+    so it costs no round trip. -/
+theorem abi_nesting_symmetric :
+    (∀ v e, encode v = .ok e → depth v ≤ maxNesting) ∧
+    (∀ b v, decode b = .ok v → depth v ≤ maxNesting) :=
+  ⟨fun _ _ he => encode_depth_le he,
+   fun b v hd => encode_depth_le (abi_accepted_canonical b v hd)⟩
+
+/-- **abi_nesting_boundary.** The limit is exact on both sides: a scalar inside exactly `maxNesting`
+    arrays encodes (to `81 … 81 f6`) and reads back; one more array is refused by the encoder with
+    `NestingLimitExceeded` — it never produces the bytes `81^(max+1) f6`, which the decoder rejects
+    with the same error. -/
+theorem abi_nesting_boundary :
+    encode (nestArr maxNesting .null) = .ok (List.replicate maxNesting 0x81 ++ [0xf6]) ∧
+    decode (List.replicate maxNesting 0x81 ++ [0xf6]) = .ok (nestArr maxNesting .null) ∧
+    depth (nestArr maxNesting .null) = maxNesting ∧
+    encode (nestArr (maxNesting + 1) .null) = .error .nestingLimit ∧
+    decode (List.replicate (maxNesting + 1) 0x81 ++ [0xf6]) = .error .nestingLimit := by
+  have h1 := enc_nestArr_ok maxNesting 0 (by omega)
+  have hn : ∀ n, norm (nestArr n .null) = nestArr n .null := by
+    intro n
+    induction n with
+    | zero => rfl
+    | succ n ih => simp only [nestArr, norm, normList, ih]
+  have hwf : ∀ n, WF (nestArr n .null) := by
+    intro n
+    induction n with
+    | zero => simp [nestArr, WF]
+    | succ n ih => simp [nestArr, WF, WFList, ih]
+  refine ⟨h1, ?_, depth_nestArr _, enc_nestArr_err maxNesting 0 (by omega),
+    decode_nest_err _ (by omega)⟩
+  have := abi_roundtrip _ (hwf maxNesting) _ h1
+  rw [hn] at this
+  exact this
+
+/-- The encoder's depth parameter only gates: the bytes of a value do not depend on where it sits
+    (so a map key's bytes are well defined), and a deeper position never encodes more. -/
+theorem abi_enc_depth_monotone {d d' : Nat} {v : Val} {e : Bytes} (h : enc d v = .ok e) (hle : d' ≤ d) :
+    enc d' v = .ok e := enc_mono h hle
+
 /-- **float_reader_canonical.** The three float arms in isolation: accepted float bytes are
     re-written bit-identically (shortest exact width, canonical NaN only, integral values refused). -/
-theorem float_reader_canonical {info : Nat} {bs rest : Bytes} {v : Val}
+theorem float_reader_canonical {info : Nat} {bs rest : Bytes} {v : Val} (d : Nat)
     (hi : info = decF16 ∨ info = decF32 ∨ info = decF64)
     (h : decFloat info bs = .ok (v, rest)) :
-    ∃ e, enc v = .ok e ∧ UInt8.ofNat (224 + info) :: bs = e ++ rest :=
-  decFloat_canon hi h
+    ∃ e, enc d v = .ok e ∧ UInt8.ofNat (224 + info) :: bs = e ++ rest :=
+  decFloat_canon d hi h
 
 /-- exact narrowing inverts exact widening on every non-NaN f32 / f16 bit pattern -/
 theorem narrow32_widen32 (w : Nat) (hw : w < 2 ^ 32) (hn : isNan (widen32 w) = false) :
@@ -116,8 +164,8 @@ theorem narrow16_widen16 (h : Nat) (hh : h < 2 ^ 16) (hn : isNan (widen16 h) = f
 
 /-- **abi_tag_rejected / abi_indefinite_rejected.** Tags and indefinite-length heads are refused at
     the head, whatever follows. -/
-theorem abi_tag_rejected (fuel : Nat) (info : Nat) (hi : info < 32) (rest : Bytes) :
-    dec (fuel + 1) (UInt8.ofNat (6 * 32 + info) :: rest) = .error .tag := by
+theorem abi_tag_rejected (fuel d : Nat) (info : Nat) (hi : info < 32) (rest : Bytes) :
+    dec (fuel + 1) d (UInt8.ofNat (6 * 32 + info) :: rest) = .error .tag := by
   have h1 : (UInt8.ofNat (6 * 32 + info)).toNat / 32 = 6 := by
     simp only [UInt8.toNat_ofNat']; omega
   generalize UInt8.ofNat (6 * 32 + info) = b0 at h1
@@ -125,8 +173,8 @@ theorem abi_tag_rejected (fuel : Nat) (info : Nat) (hi : info < 32) (rest : Byte
   simp only [h1]
   simp [decTagMajor]
 
-theorem abi_indefinite_rejected (fuel major : Nat) (hm : major < 6 ∨ major = 7) (rest : Bytes) :
-    dec (fuel + 1) (UInt8.ofNat (major * 32 + 31) :: rest) = .error .indefinite := by
+theorem abi_indefinite_rejected (fuel d major : Nat) (hm : major < 6 ∨ major = 7) (rest : Bytes) :
+    dec (fuel + 1) d (UInt8.ofNat (major * 32 + 31) :: rest) = .error .indefinite := by
   have h1 : (UInt8.ofNat (major * 32 + 31)).toNat / 32 = major := by
     simp only [UInt8.toNat_ofNat']; omega
   have h2 : (UInt8.ofNat (major * 32 + 31)).toNat % 32 = 31 := by
